@@ -528,19 +528,21 @@ type ContractDB struct {
 	Sorts  map[string]bool
 	Consts map[string]*CExpr
 	Ghosts map[string]*CType
+	Macros map[string]*Macro
+	NonNilMaps map[string]string
 	Files  []string
 	SpecOrder []string
 }
 
 func NewContractDB() *ContractDB {
-	return &ContractDB{Funcs: map[string]*FuncContract{}, Specs: map[string]*SpecFunc{}, Sorts: map[string]bool{}, Consts: map[string]*CExpr{}, Ghosts: map[string]*CType{}}
+	return &ContractDB{Funcs: map[string]*FuncContract{}, Specs: map[string]*SpecFunc{}, Sorts: map[string]bool{}, Consts: map[string]*CExpr{}, Ghosts: map[string]*CType{}, Macros: map[string]*Macro{}, NonNilMaps: map[string]string{}}
 }
 
 var clauseKeywords = map[string]bool{
 	"property": true, "spec": true, "axiom": true, "lemma": true, "func": true, "requires": true, "ensures": true,
 	"modifies": true, "pure": true, "inline": true, "assume": true, "loop": true, "invariant": true, "decreases": true,
 	"unroll": true, "logical": true, "sort": true, "noreturn": true, "nilable": true, "trusted": true, "alloc_bound": true,
-	"const": true, "opaque": true, "nilchecks": true, "let": true, "ghost": true, "ghostfield": true,
+	"const": true, "opaque": true, "nilchecks": true, "let": true, "ghost": true, "ghostfield": true, "macro": true, "mapinv": true,
 }
 
 type rawClause struct {
@@ -618,6 +620,32 @@ func (db *ContractDB) LoadFile(path string) error {
 			} else {
 				cur.Props = append(cur.Props, ps...)
 			}
+		case "macro":
+			// macro name(a, b) = expr
+			i := indexTopEq(rc.text)
+			if i < 0 {
+				return fmt.Errorf("%s:%d: macro NAME(params) = expr", path, rc.line)
+			}
+			hdr := strings.TrimSpace(rc.text[:i])
+			op := strings.IndexByte(hdr, '(')
+			if op < 0 || !strings.HasSuffix(hdr, ")") {
+				return fmt.Errorf("%s:%d: macro NAME(params) = expr", path, rc.line)
+			}
+			body, err := ParseCExpr(rc.text[i+1:])
+			if err != nil {
+				return fmt.Errorf("%s:%d: %v", path, rc.line, err)
+			}
+			db.Macros[strings.TrimSpace(hdr[:op])] = &Macro{Params: paramNames(hdr[op+1 : len(hdr)-1]), Body: body}
+			cur, curLoop = nil, nil
+		case "mapinv":
+			// mapinv nonnil <map type key> : <reason>
+			rest := strings.TrimSpace(strings.TrimPrefix(strings.TrimSpace(rc.text), "nonnil"))
+			parts := strings.SplitN(rest, ":", 2)
+			why := ""
+			if len(parts) == 2 {
+				why = strings.TrimSpace(parts[1])
+			}
+			db.NonNilMaps[strings.TrimSpace(parts[0])] = why
 		case "sort":
 			db.Sorts[strings.TrimSpace(rc.text)] = true
 		case "ghost", "ghostfield":
@@ -1001,4 +1029,9 @@ func paramNames(s string) []string {
 		out = append(out, fs[0])
 	}
 	return out
+}
+
+type Macro struct {
+	Params []string
+	Body   *CExpr
 }
